@@ -76,12 +76,16 @@ PROPS = {
             "c16_grant_agrees_partial assumes solver determinism explicitly (hypothesis hdet: for a request with a strict entry "
             "the solver reports the same objective value for the identical MILP in is_enabled and in try_allocate); HiGHS may "
             "return any incumbent within mip_rel_gap=1e-4, so optimality of the recorded answer alone does not give this.",
+            "c16_claim_nostop_partial (try_allocate never stops) covers list/range/sum resources with every policy and grouped "
+            "resources with all/scatter/compact; tight and the strict policies on grouped resources are NOT covered by a theorem "
+            "(correspondence only). Its hypotheses: NoSingletonGroups, distinct resource ids, no entry on an Empty pool, coupling "
+            "items address existing groups.",
             "The policy theorems that are `_partial` state their missing parts in their doc comments: c16_admit_iff_partial "
             "(any state, fraction values < 1 unit as hypothesis; the full c16_admit_iff discharges it for reachable states under "
             "NoSingletonGroups), c16_all (all indices free at admission not formalised), "
             "c16_scatter (only the case 'every group non-empty, whole amount <= #groups'), c16_min_groups / c16_strict (bounds "
             "as hypotheses on the tie-break terms; uncoupled single entry; strict: only 'admitted => no more groups than on the "
-            "empty worker'). The converse of c16_strict is false for the code: KNOWN_FINDINGS F24.",
+            "empty worker'). The converse of c16_strict is false for the code: KNOWN_FINDINGS F30.",
             "Scatter spread, min-group count, strict admission and `all` are additionally checked on every generated grant by "
             "harness monitors against brute-force references (c16.scatter, c16.min-groups, c16.strict, c16.all, c16.admit).",
         ],
